@@ -3387,7 +3387,10 @@ func (s *Translator) translateShortestPathTraversal(part *PatternPart, stepIndex
 }
 
 func (s *Translator) translateNonTraversalPatternPart(part *PatternPart) error {
-	if nextFrame, err := s.scope.PushFrame(); err != nil {
+	if part.NodeSelect.Binding == nil {
+		// Hand-built models (the query builders) can produce a MATCH whose pattern part has no elements
+		return fmt.Errorf("expected a node pattern in a pattern part without traversal steps")
+	} else if nextFrame, err := s.scope.PushFrame(); err != nil {
 		return err
 	} else {
 		part.NodeSelect.Frame = nextFrame
